@@ -132,7 +132,13 @@ def candidates(tier, seed):
         if s.get("arch") and s.get("bindings"):
             specs.append((s, True))
     if hasattr(specgen, "f_metrics"):
-        specs += [(s, True) for s in specgen.f_metrics("quick", seed)[::5]]
+        fm = specgen.f_metrics("quick", seed)
+        picked = fm[::5] + [s for s in fm if (s.get("tags") or {}).get("legal") and (s.get("tags") or {}).get("template") != "mini"]
+        got = set()
+        for s in picked:
+            if s["name"] not in got:
+                got.add(s["name"])
+                specs.append((s, True))
     return specs
 
 
